@@ -270,6 +270,17 @@ fn run_case(ctx: &mut Ctx, c: &Value) -> R<()> {
             let mut cached = twin.clone();
             cached.cache_serials();
             for en in &entries { same!(kind, "contains-cached", cached.contains(en.user_certificate), true); }
+            same!(kind, "contains-cached-absent", cached.contains(absent), false);
+            // the list itself, the signed structure around it, and the fields that say who issued it
+            same!(kind, "revoked_certs.contains", built.revoked_certs().contains(absent), twin.revoked_certs().contains(absent));
+            for en in &entries { same!(kind, "revoked_certs.contains-listed", twin.revoked_certs().contains(en.user_certificate), true); }
+            same!(kind, "as_cert_list.this_update", built.as_cert_list().this_update(), twin.as_cert_list().this_update());
+            same!(kind, "signature-algorithm", format!("{:?}", built.signature()), format!("{:?}", twin.signature()));
+            same!(kind, "signed_data.data", built.signed_data().data().as_slice().to_vec(), twin.signed_data().data().as_slice().to_vec());
+            same!(kind, "signed_data.signature", built.signed_data().signature().value().to_vec(), twin.signed_data().signature().value().to_vec());
+            same!(kind, "issuer", format!("{:?}", built.issuer()), format!("{:?}", twin.issuer()));
+            same!(kind, "aki", built.authority_key_identifier(), twin.authority_key_identifier());
+            same!(kind, "crl_number", built.crl_number(), twin.crl_number());
         }
         "mft" => {
             let names = ["a.cer", "B-2_x.roa", "zz9.crl", "0.mft"];
@@ -301,6 +312,23 @@ fn run_case(ctx: &mut Ctx, c: &Value) -> R<()> {
             let ua: Vec<_> = built.content().iter_uris(&base).map(|(u, h)| (u, h.as_slice().to_vec())).collect();
             let ub: Vec<_> = twin.content().iter_uris(&base).map(|(u, h)| (u, h.as_slice().to_vec())).collect();
             same!(kind, "iter_uris", ua, ub);
+            // entry by entry: name and hash as given, the hash algorithm, and the hash verifies against exactly the data it was made of
+            same!(kind, "file_hash_alg", format!("{:?}", built.content().file_hash_alg()), format!("{:?}", twin.content().file_hash_alg()));
+            for (which, cont) in [("built", built.content()), ("decoded", twin.content())] {
+                for (f, i) in cont.iter().zip(items.iter()) {
+                    let name = names[*i as usize - 1];
+                    if f.file().as_ref() != name.as_bytes() || f.hash().as_ref() != crate::cms::sha256(name.as_bytes()).as_slice() {
+                        return e("mft:accessor:file-hash", format!("{which} manifest lists ({:?}, {} hash octets) for {name}", String::from_utf8_lossy(f.file().as_ref()), f.hash().as_ref().len()));
+                    }
+                }
+                for ((_, h), i) in cont.iter_uris(&base).zip(items.iter()) {
+                    let name = names[*i as usize - 1];
+                    if h.verify(name.as_bytes()).is_err() || h.verify(format!("{name}x").as_bytes()).is_ok() {
+                        return e("mft:accessor:hash-verify", format!("{which} manifest: the hash listed for {name} does not verify against its data, or verifies against other data"));
+                    }
+                    same!(kind, "hash-algorithm", format!("{:?}", h.algorithm()), format!("{:?}", cont.file_hash_alg()));
+                }
+            }
             twin.validate_at(&issuer, true, now).or_else(|x| e("mft:validate", x))?;
         }
         "roa" => {
@@ -357,6 +385,19 @@ fn run_case(ctx: &mut Ctx, c: &Value) -> R<()> {
             let lb: Vec<_> = twin.content().iter().map(|x| (x.address(), x.address_length(), x.max_length())).collect();
             same!(kind, "iter", la, lb);
             same!(kind, "iter-vs-attestation", before, lb);
+            // the other views of the same entries: prefix, family, text form; and the per-family lists entry by entry
+            let fa: Vec<_> = built.content().iter().map(|x| (x.prefix(), x.is_v4(), x.to_string())).collect();
+            let fb: Vec<_> = twin.content().iter().map(|x| (x.prefix(), x.is_v4(), x.to_string())).collect();
+            same!(kind, "iter-friendly", fa, fb);
+            for x in twin.content().iter() {
+                let a: rpki::repository::resources::Addr = x.address().into();
+                if x.prefix().addr() != a || x.prefix().addr_len() != x.address_length() || x.is_v4() != x.address().is_ipv4() || x.max_length() < x.address_length() {
+                    return e("roa:accessor:friendly", format!("entry {x}: prefix {:?} / address {} / length {} / max length {} / is_v4 {} do not fit together", x.prefix(), x.address(), x.address_length(), x.max_length(), x.is_v4()));
+                }
+            }
+            let ra: Vec<_> = built.content().v4_addrs().iter().chain(built.content().v6_addrs().iter()).map(|x| (x.prefix(), x.max_length(), x.range())).collect();
+            let rb: Vec<_> = twin.content().v4_addrs().iter().chain(twin.content().v6_addrs().iter()).map(|x| (x.prefix(), x.max_length(), x.range())).collect();
+            same!(kind, "addrs-raw", ra, rb);
             if lb.len() > items.len() || lb.is_empty() {
                 return e("roa:accessor:iter-count", format!("{} prefixes pushed, {} listed", items.len(), lb.len()));
             }
@@ -442,6 +483,16 @@ fn run_case(ctx: &mut Ctx, c: &Value) -> R<()> {
                 same!(kind, "rpki_notify", twin.rpki_notify(), if with_notify { Some(&notify) } else { None });
                 same!(kind, "public_key", twin.public_key(), &pki.pubkey("k1"));
                 same!(kind, "basic_ca", twin.basic_ca(), true);
+                // what the request says about itself beyond the three URIs: a CA request (key usage for a CA, no extended key
+                // usage), for the key that signed it, under that key's name; the re-decoded twin of its own bytes agrees
+                if twin.key_usage() != KeyUsage::Ca || twin.extended_key_usage().is_some() {
+                    return e("csr:accessor:key_usage", format!("key usage {:?}, extended key usage present: {}", twin.key_usage(), twin.extended_key_usage().is_some()));
+                }
+                same!(kind, "subject", format!("{:?}", twin.subject()), format!("{:?}", pki.pubkey("k1").to_subject_name()));
+                let again = RpkiCaCsr::decode(twin.to_captured().into_bytes()).or_else(|x| e("csr:decode", x))?;
+                same!(kind, "twin:subject", format!("{:?}", twin.subject()), format!("{:?}", again.subject()));
+                same!(kind, "twin:attributes", format!("{:?}", twin.attributes()), format!("{:?}", again.attributes()));
+                same!(kind, "twin:public_key", twin.public_key(), again.public_key());
             }
         }
         "idcert" => {
@@ -455,6 +506,12 @@ fn run_case(ctx: &mut Ctx, c: &Value) -> R<()> {
             same!(kind, "ta:ski", ta.subject_key_identifier(), twin.subject_key_identifier());
             same!(kind, "ta:aki", ta.authority_key_id(), twin.authority_key_id());
             same!(kind, "ta:key", ta.public_key(), twin.public_key());
+            same!(kind, "ta:spki", ta.subject_public_key_info(), twin.subject_public_key_info());
+            same!(kind, "ta:subject_key_id", ta.subject_key_id(), twin.subject_key_id());
+            same!(kind, "ta:ski-is-key-id", twin.subject_key_id(), pki.pubkey("k0").key_identifier());
+            same!(kind, "ta:subject", format!("{:?}", ta.subject()), format!("{:?}", twin.subject()));
+            same!(kind, "ta:to_bytes", ta.to_bytes(), twin.to_bytes());
+            same!(kind, "ta:to_bytes-is-captured", twin.to_bytes(), twin.to_captured().into_bytes());
             let ee = IdCert::new_ee(&pki.pubkey("e0"), validity, &k0, &pki.signer).map_err(|x| ("idcert:build".to_string(), x.to_string()))?;
             let bytes = ee.to_captured().into_bytes();
             let twin = IdCert::decode(bytes.clone()).or_else(|x| e("idcert:decode", x))?;
@@ -463,6 +520,17 @@ fn run_case(ctx: &mut Ctx, c: &Value) -> R<()> {
             same!(kind, "ee:serial", ee.serial_number(), twin.serial_number());
             same!(kind, "ee:validity", ee.validity(), twin.validity());
             same!(kind, "ee:aki", ee.authority_key_id(), twin.authority_key_id());
+            same!(kind, "ee:aki-is-issuer", twin.authority_key_id(), Some(pki.pubkey("k0").key_identifier()));
+            same!(kind, "ee:ski", ee.subject_key_identifier(), twin.subject_key_identifier());
+            same!(kind, "ee:ski-is-key-id", twin.subject_key_id(), pki.pubkey("e0").key_identifier());
+            same!(kind, "ee:key", ee.public_key(), twin.public_key());
+            same!(kind, "ee:subject", format!("{:?}", ee.subject()), format!("{:?}", twin.subject()));
+            same!(kind, "ee:to_bytes", ee.to_bytes(), twin.to_bytes());
+            // the entry points that read the clock: only when the validity window contains it
+            if c["times"] == "far" {
+                twin.validate_ee(&pki.pubkey("k0")).or_else(|x| e("idcert:validate", x))?;
+                IdCert::decode(ta.to_bytes()).or_else(|x| e("idcert:decode", x))?.validate_ta().or_else(|x| e("idcert:validate", x))?;
+            }
         }
         "sigmsg" => {
             for content in [&b""[..], &b"<x/>"[..], &vec![7u8; 70000][..]] {
